@@ -59,7 +59,7 @@ theorem checkedInsertAfter_gen {g : Forest} (hi : g.Inv) {ref c : Nat} {cv sv : 
     have hiv : innerValue (cutPath c (init ++ [fr])) = some fr.v := by
       simp [cutPath, innerValue_map_mapKids]
     apply hi.place hi' hperm h1 h2 h3 h4 hroots
-    · simp only [handlesList_append, handlesList_cons, handlesList_nil, List.append_nil, List.append_assoc]
+    · simp only [fi_handlesList_append, handlesList_cons, handlesList_nil, List.append_nil, List.append_assoc]
       refine List.Perm.append_left _ (List.Perm.append_left _ ?_)
       exact List.perm_append_comm
     · rw [hiv] at k1 ⊢
